@@ -121,7 +121,12 @@ pub fn gen_world(seed: u64, idx: u64, s: &dyn SuiteOps, cover: usize, per_world:
     let lid_s = gen_logical_id(&mut g, k);
     let k = g.below(2);
     let ctx = gen_ctx(&mut g, k);
-    let ksf = gen_ksf(&mut g, fam, true);
+    let mut ksf = gen_ksf(&mut g, fam, true);
+    // one world in seven stretches with an instance that ignores its input: the password must
+    // still be bound through the OPRF output itself
+    if fam == crate::suite::KsfFamily::Sim && idx % 7 == 3 {
+        ksf = crate::suite::KsfArg::Sim(crate::seams::SIMKSF_CONSTANT | 2);
+    }
     let reg_ids = WIds {
         client: match &lid_c {
             LogicalId::Default => IdSpec::Absent,
